@@ -185,6 +185,44 @@ def run(rep, tier):
         if e is not None:
             lines.append(op_line(data, thr, npix, conn, mask))
             exps.append(e)
+    # (c) nested shapes: an L / U / ring-shaped source whose bounding box contains another source, diagonal neighbours, and isolated single
+    # pixels ahead of them in raster order that are pruned (npixels = 2) - the survivors have overlapping bounding boxes and are renumbered
+    # (seed C04-r11 renumbered box by box, in place)
+    for k in range(60 * (10 if thorough else 1)):
+        ny, nx = r.randint(7, 10), r.randint(6, 10)
+        data = np.zeros((ny, nx))
+        y0, x0 = r.randint(1, 2), r.randint(0, 1)
+        y1, x1 = r.randint(y0 + 4, ny - 1), r.randint(x0 + 4, nx - 1)
+        kind_ = ['L', 'U', 'ring', 'diag'][k % 4]
+        if kind_ == 'diag':
+            for i_ in range(min(y1 - y0, x1 - x0) + 1):
+                data[y0 + i_, x0 + i_] = 2.0                        # a diagonal line: one component for 8-connectivity, single pixels for 4
+                if x0 + i_ + 2 < nx:
+                    data[y0 + i_, x0 + i_ + 2] = 3.0                # a parallel diagonal two columns to the right
+        else:
+            data[y0:y1 + 1, x0] = 2.0
+            data[y1, x0:x1 + 1] = 2.0
+            if kind_ in ('U', 'ring'):
+                data[y0:y1 + 1, x1] = 2.0
+            if kind_ == 'ring':
+                data[y0, x0:x1 + 1] = 2.0
+            iy, ix = r.randint(y0 + (2 if kind_ == 'ring' else 0), y1 - 2), r.randint(x0 + 2, x1 - 2)
+            data[iy, ix] = 4.0
+            if r.random() < 0.7 and ix + 1 <= x1 - 2:
+                data[iy, ix + 1] = 4.0
+            elif iy - 1 >= y0 + (2 if kind_ == 'ring' else 0):
+                data[iy - 1, ix] = 4.0
+            else:
+                data[iy, ix] = 0.0
+        for _ in range(r.randint(1, 2)):                            # isolated single pixels on row 0 (pruned; they come first in raster order)
+            data[0, r.randrange(nx)] = 5.0
+        conn = [8, 4][(k // 4) % 2]
+        npix = 2
+        e = check_case(rep, data, 1.0, npix, conn, None, 'nested')
+        rep.case(('nested', data.tobytes(), conn), True, kind=f'nested:{kind_}:conn{conn}')
+        if e is not None:
+            lines.append(op_line(data, 1.0, npix, conn, None))
+            exps.append(e)
     out = drv.run(lines)
     if out is None:
         rep.tie_broken('model driver failed', drv.error)
